@@ -1,11 +1,15 @@
 #!/bin/bash
-# Runs every seeded change under /verif/seeded against the quick check of its own property
-# (plus extra checks given as "id:Cxx,Cyy" pairs in tools/mutant_extra.txt). Output: one line per (mutant, check).
+# Runs seeded changes under /verif/seeded against the quick check of their own property
+# (plus extra checks given as "id:Cxx,Cyy" in tools/mutant_extra.txt). One line per (mutant, check).
+# usage: mutant_matrix.sh <tier> <outfile> [id-glob]
 tier=${1:-quick}
 out=${2:-/tmp/mutant-matrix.txt}
+glob=${3:-*}
 : > $out
-for d in /verif/seeded/C*-*; do
-  id=$(basename $d); prop=${id%%-*}
+for d in /verif/seeded/$glob; do
+  [ -f $d/patch.diff ] || continue
+  id=$(basename $d)
+  prop=$(echo $id | grep -o 'C[0-9][0-9]' | head -1)
   extra=$(grep "^$id:" /verif/tools/mutant_extra.txt 2>/dev/null | cut -d: -f2 | tr ',' ' ')
   /verif/tools/run_mutant.sh $d $tier $prop $extra >> $out 2>&1
 done
